@@ -13,6 +13,10 @@ func c09(c *Check) {
 	n := c.Frozen("C09")
 	c.Extra["frozen_entries"] = n
 	c.Rule("C09/pending-set-recorded-before-switch", "within one update the list announced by an epoch header is recorded (SetPendingValidators) before the switch block can read the pending list (GetPendingValidators): with a single validator the switch offset floor(1/2) is 0, the epoch header is also the switch header, and the set that becomes active must be the one that very header carries", 1)
+	c.Rule("C09/no-stale-validator-set", "the BSC update does not keep using, after it switched clientState.Validators, a value it derived from the old set (the recent-signer window of the final prune is that of the set now active)", 1)
+	staleFieldReads(c, "C09/no-stale-validator-set", "x/xibc/clients/light-clients/bsc/types.update")
+	c.Rule("C09/nothing-before-validity", "BSC CheckHeaderAndUpdateState changes state only after checkValidity accepted the header", 1)
+	nothingBeforeValidity(c, "C09/nothing-before-validity", "x/xibc/clients/light-clients/bsc/types.ClientState.CheckHeaderAndUpdateState")
 	neverBefore(c, "C09/pending-set-recorded-before-switch", c.F("x/xibc/clients/light-clients/bsc/types.update"), "bsc/types.GetPendingValidators", "bsc/types.SetPendingValidators",
 		"the pending list is never read before it is recorded", "the pending validator list is read (switch block) on a path that records the epoch header's list only afterwards: for a validator set of size one the stale list becomes active and the announced one is never applied")
 }
